@@ -45,6 +45,11 @@ FAULTS = [
     ("repeated-regex-literal-on-a-number", "TwoR", "TwoR { s: \"xa\".to_string(), e: Em(\"xb\".to_string()), n: 1 }", "TwoR { s: =~ r\"^x\", n: =~ r\"^x\", .. }", "@last:=~ r\"^x\""),
     ("repeated-string-literal-second-ill-typed", "TwoR", "TwoR { s: \"xa\".to_string(), e: Em(\"xb\".to_string()), n: 1 }", "TwoR { s: \"xa\", n: \"xa\", .. }", "@last:\"xa\""),
     ("repeated-operand-second-ill-typed", "TwoR", "TwoR { s: \"xa\".to_string(), e: Em(\"xb\".to_string()), n: 1 }", "TwoR { n: == 1, s: == 1, .. }", "@last:== 1"),
+    # whole-pattern kinds on a value of another kind, with keys that are not string literals
+    ("map-pattern-on-a-vec-integer-key", "Vec<i32>", "vec![1, 2]", "#{ 0: 42, .. }", "#{ 0: 42, .. }"),
+    ("map-pattern-on-a-vec-exact", "Vec<i32>", "vec![1, 2]", "#{ 0: 1, 1: 2 }", "#{ 0: 1, 1: 2 }"),
+    ("map-pattern-on-a-string-variable-key", "String", "\"hello\".to_string()", "#{ pat: 1, .. }", "#{ pat: 1, .. }"),
+    ("map-key-of-another-type", "BTreeMap<String, i32>", "BTreeMap::from([(\"a\".to_string(), 1)])", "#{ 1: 1, .. }", "#{ 1: 1, .. }"),
     ("nested-operand-type", "Leaf", "Leaf { n: 7, s: \"hello\".to_string() }", "Leaf { n: 7, s.len(): < \"five\" }", "< \"five\""),
 ]
 
